@@ -161,7 +161,7 @@ def extract_witness(model, env):
 def jobs_for(reg, prop, unit_filter=None):
     jobs = []
     for qn, c in reg.contracts.items():
-        if c.assumed or c.inline:
+        if c.assumed or c.inline or c.wip:
             continue
         if prop != "all" and prop not in c.props:
             continue
